@@ -745,16 +745,17 @@ theorem MeshRep.Bounded.frame {h h' : Heap κ α} (f : Frame h.arrays.length h h
 
 /-- **`Append` refines its pure meaning**: the observable value of what `appendCopy` returns is `pureAppend` of the
     observable values of its arguments — whatever the heap looks like, wherever the arrays are, whatever the growth policy -/
-theorem appendCopy_refine (E : Env α) {h : Heap κ α} {m o : MeshRep} (bm : m.Bounded h) (bo : o.Bounded h) :
-    (appendCopy E h m o).map (fun x => obs x.1 x.2) = pureAppend E (obs h m) (obs h o) := by
+theorem appendCopy_refine (E : Env α) {h : Heap κ α} {m o : MeshRep} (bm : m.Bounded h) (bo : o.Bounded h)
+    (aLen bLen : Nat) :
+    (appendCopy E h m o aLen bLen).map (fun x => obs x.1 x.2) = pureAppend E aLen bLen (obs h m) (obs h o) := by
   unfold appendCopy pureAppend
   have ht : ∀ r : MeshRep, (obs h r).topo = r.topo := fun _ => rfl
   rw [ht, ht]
   split
   · rfl
   · simp only [Option.map_some, Option.some.injEq]
-    obtain ⟨fm, bM, oM⟩ := appendMaps_refine E (attrLen h m) (attrLen h o) m.maps o.maps bm.2.2 bo.2.2
-    generalize appendMaps E false (attrLen h m) (attrLen h o) h m.maps o.maps = rm at fm bM oM ⊢
+    obtain ⟨fm, bM, oM⟩ := appendMaps_refine E aLen bLen m.maps o.maps bm.2.2 bo.2.2
+    generalize appendMaps E false aLen bLen h m.maps o.maps = rm at fm bM oM ⊢
     -- the arguments' index and material slices in the heap after the maps
     have rdg : ∀ t, BoundedS h t → BoundedS rm.1 t ∧ rm.1.read t = h.read t :=
       fun t bt => ⟨bt.frame_size fm, read_frame_valid fm bt.valid⟩
@@ -777,19 +778,19 @@ theorem appendCopy_refine (E : Env α) {h : Heap κ α} {m o : MeshRep} (bm : m.
     obtain ⟨bt2, rt2, dt2⟩ := oB _ bA
     have hlen : t2.2.len = m.indices.len + o.indices.len := by
       rw [← bA.read_length, rA, List.length_append, bx.read_length, by_.read_length]
-    obtain ⟨rS, mS, oS⟩ := shiftTail_refine E bt2 m.indices.len (attrLen h m) (by omega)
+    obtain ⟨rS, mS, oS⟩ := shiftTail_refine E bt2 m.indices.len aLen (by omega)
     -- field by field
-    have hidx : (shiftTail E u2.1 t2.2 m.indices.len (attrLen h m)).read t2.2
-        = h.read m.indices ++ (h.read o.indices).map (E.shift (attrLenObs (obs h m))) := by
-      rw [rS, rt2, rA, rx, ry, ← attrLen_obs bm]
+    have hidx : (shiftTail E u2.1 t2.2 m.indices.len aLen).read t2.2
+        = h.read m.indices ++ (h.read o.indices).map (E.shift aLen) := by
+      rw [rS, rt2, rA, rx, ry]
       have hl : (h.read m.indices).length = m.indices.len := bm.1.read_length
       rw [List.take_left' hl, List.drop_left' hl]
-    have hmat : (shiftTail E u2.1 t2.2 m.indices.len (attrLen h m)).read u2.2
+    have hmat : (shiftTail E u2.1 t2.2 m.indices.len aLen).read u2.2
         = h.read m.materials ++ h.read o.materials := by
       rw [(oS _ bB).2 dt2.symm, rB, ru2, rv2, ru, rv]
-    have hattr : rm.2.map (obsMap (shiftTail E u2.1 t2.2 m.indices.len (attrLen h m)))
-        = pureMaps E (attrLenObs (obs h m)) (attrLenObs (obs h o)) (obs h m).attrs (obs h o).attrs := by
-      rw [obs_attrs, obs_attrs, ← attrLen_obs bm, ← attrLen_obs bo, ← oM]
+    have hattr : rm.2.map (obsMap (shiftTail E u2.1 t2.2 m.indices.len aLen))
+        = pureMaps E aLen bLen (obs h m).attrs (obs h o).attrs := by
+      rw [obs_attrs, obs_attrs, ← oM]
       apply List.map_congr_left
       intro mp hmp
       apply obsMap_keep (g := rm.1) _ _ (bM mp hmp)
